@@ -117,6 +117,16 @@ def run(ck):
                    {'cycle': k, 'impl': base[3][k], 'ref': ref_trace[k], 'signals': [s.path for s in d.sigs],
                     'oracle': 'state after the tick = next-state functions evaluated on pre-edge values only (last assignment wins, unassigned holds)'})
     for r in runs:
+      stray = sorted(set(r[1]) & set(ff_ids))
+      lost = sorted(set(ff_ids) - set(r[2]))
+      if stray or lost or len(set(r[2])) != len(r[2]):
+        # direct oracle on the real schedule: an update_ff block belongs to the ff section exactly once and never to the
+        # combinational schedule (there it would be evaluated again on post-edge values)
+        ck.violation('ff-block-misplaced-in-schedule', {'flow': r[0], 'in_comb': bool(stray)},
+                     {'source': src, 'flow': r[0], 'inputs': cycles, 'signals': [s_.path for s_ in d.sigs]},
+                     {'ff_blocks_in_comb_schedule': stray, 'ff_blocks_missing_from_ff_schedule': lost, 'ff_schedule': list(r[2]),
+                      'oracle': 'every update_ff block runs exactly once per tick, before the flip, and never in the combinational schedule'})
+        continue
       lines.append(rtlgen.model_sim_line(d, [('b', i) for i in r[1]], r[2], cycles))
       meta.append((d, src, r, cycles))
   replies = ck.drv('rtl').batch(lines)
